@@ -163,7 +163,7 @@ theorem keysOf_pos {cfg : DCfg} (hp : Pos cfg) (steps : List Step) (kvs : List (
   funext k
   simp
 
-theorem children_find {cfg : DCfg} (hp : Pos cfg) (he0 : cfg.exclude = []) (al : Align) (hashOf : PyVal → String)
+theorem children_find {cfg : DCfg} (hsk : ∀ st, skipSteps cfg st = false) (al : Align) (hashOf : PyVal → String)
     (K : List PyVal) (hK : StrictKeys K) (steps : List Step) (kvs1 kvs2 : List (PyVal × PyVal))
     (hdk1 : distinctKeys (kvs1.map (·.1)) = true) (hkk1 : ∀ k ∈ kvs1.map (·.1), hashable k = true ∧ k ∈ K)
     (hdk2 : distinctKeys (kvs2.map (·.1)) = true) (hkk2 : ∀ k ∈ kvs2.map (·.1), hashable k = true ∧ k ∈ K)
@@ -177,7 +177,6 @@ theorem children_find {cfg : DCfg} (hp : Pos cfg) (he0 : cfg.exclude = []) (al :
   have hkK : k ∈ K := (hkk1 k hk1m).2
   have hget1 : dictGet kvs1 k = some v1 := dictGet_self' kvs1 k v1 hdk1 hhk hm1
   have hget2 : dictGet kvs2 k = some v2 := dictGet_self' kvs2 k v2 hdk2 hhk hm2
-  have hsk : ∀ st, skipSteps cfg st = false := skipSteps_none hp he0
   have hfind : k2.find? (fun x => keyEq k x) = some k := by
     cases hf : k2.find? (fun x => keyEq k x) with
     | none =>
@@ -257,7 +256,7 @@ theorem dict_children {cfg : DCfg} (hp : Pos cfg) (he0 : cfg.exclude = []) (al :
     subst he1
     have hm2 : (ka', v2) ∈ kvs2 := by rw [← he2]; exact hm20
     have hh : hashable ka' = true := (hkk1 ka' hk1).1
-    rw [children_find hp he0 al hashOf K hK steps kvs1 kvs2 hdk1 hkk1 hdk2 hkk2 kb hkb_sub ka' v1 v2 hm10 hm2 hkb (by rw [hpriv]; exact hnp)]
+    rw [children_find (skipSteps_none hp he0) al hashOf K hK steps kvs1 kvs2 hdk1 hkk1 hdk2 hkk2 kb hkb_sub ka' v1 v2 hm10 hm2 hkb (by rw [hpriv]; exact hnp)]
     simp only [valAt, dictGet_self' kvs1 ka' v1 hdk1 hh hm10, dictGet_self' kvs2 ka' v2 hdk2 hh hm2, Option.getD_some]
   rw [show (List.filter (fun k => List.any (List.filter (fun k => !(priv && isPrivate k)) (kvs1.map (·.1))) fun k' => keyEq k' k)
         (List.filter (fun k => !(priv && isPrivate k)) (kvs2.map (·.1)))) = inter from rfl, step1]
